@@ -105,7 +105,7 @@ def classify(r):
     return "inconclusive", "verdict %s without a classified failure" % r["verdict"]
 
 
-def run_group(crate, module_harnesses, timeout_s, jobs, logname, mem_gb=20, extra=None):
+def run_group(crate, module_harnesses, timeout_s, jobs, logname, mem_gb=48, extra=None):
     """Run the named harnesses of one crate in one `cargo kani` invocation (one build, parallel CBMC runs).
 
     module_harnesses: list of (module_path, harness_name). Returns {harness_name: (status, reason, parsed)}.
